@@ -39,7 +39,7 @@ var c10Scenarios = []string{
 
 var c10Signing = map[string]bool{"callback-post-done": true, "callback-redirect-done": true, "callback-body-done": true, "attrquery": true, "metadata-signed": true}
 
-var c10KeyKinds = []string{"error", "nil", "nokey", "nocert", "emptycert", "errval"}
+var c10KeyKinds = []string{"error", "timeout", "canceled", "nil", "nokey", "nocert", "emptycert", "errval"}
 
 // c10KindsOf lists the fault kinds of an operation: a returned error; for lookups also an error accompanied by a usable value
 // (callers must go by the error); for the user-info setters also an error after part of the record was delivered.
@@ -48,11 +48,12 @@ func c10KindsOf(op string) []string {
 	case "GetResponseSigningKey", "GetMetadataSigningKey":
 		return c10KeyKinds
 	case "GetEntityByID", "GetEntityIDByAppID", "AuthRequestByID":
-		return []string{"error", "errval"}
+		return []string{"error", "timeout", "canceled", "notfound", "errval"}
 	case "SetUserinfoWithUserID", "SetUserinfoWithLoginName":
-		return []string{"error", "partial"}
+		return []string{"error", "timeout", "canceled", "partial"}
 	}
-	return []string{"error"}
+	// the shape of the error (a timeout that says so through Timeout(), a cancellation, a plain sentinel) must not matter
+	return []string{"error", "timeout", "canceled"}
 }
 
 // c10Build returns the world spec and the request of a scenario variant.
